@@ -70,10 +70,10 @@ Return ==
     /\ (cfg.hasdx => (E.afx < cfg.tol \/ iters = cfg.maxiter \/ (iters >= 1 /\ \A t \in trials : Near(xcur, t))))
     /\ (cfg.hasdx => (E.afx < cfg.tol \/ iters = 0 \/ E.x = BetterEnd(tlo, thi)))
     /\ cfg.min <= E.x /\ E.x <= cfg.max
-    \* the quantitative clause: when plain interval halving from the initial bracket meets the tolerance within the
-    \* budget (cfg.bisect steps, counted by the driver; two iterations of slack), a search that used up its budget has
-    \* met it too
-    /\ ((cfg.hasdx /\ iters = cfg.maxiter /\ cfg.bisect > 0 /\ cfg.bisect + 2 <= cfg.maxiter) => E.afx < cfg.tol)
+    \* the quantitative clause (non-decreasing f): when halving the initial bracket cfg.bisect times makes it so narrow
+    \* that every point of such a bracket around the root meets the tolerance (counted by the driver), a search that
+    \* used up a budget of at least that many iterations has met it too
+    /\ ((cfg.hasdx /\ cfg.mono /\ iters = cfg.maxiter /\ cfg.bisect > 0 /\ cfg.bisect <= cfg.maxiter) => E.afx < cfg.tol)
     \* non-decreasing f, at least one iteration: no worse than the better end of the initial bracket
     \* (or already below the tolerance)
     /\ ((cfg.mono /\ iters >= 1) => (E.afx < cfg.tol \/ (E.afx <= E.amin /\ E.afx <= E.amax)))
